@@ -13,8 +13,8 @@ import (
 // a point element
 type pt struct{ p vector3.Float64 }
 
-func (e pt) BoundingBox() geometry.AABB                      { return geometry.NewAABB(e.p, vector3.Zero[float64]()) }
-func (e pt) ClosestPoint(vector3.Float64) vector3.Float64    { return e.p }
+func (e pt) BoundingBox() geometry.AABB                   { return geometry.NewAABB(e.p, vector3.Zero[float64]()) }
+func (e pt) ClosestPoint(vector3.Float64) vector3.Float64 { return e.p }
 
 func sv3(name string) vector3.Float64 {
 	return vector3.New(zz.Float64(name+".x"), zz.Float64(name+".y"), zz.Float64(name+".z"))
@@ -100,7 +100,7 @@ func ZZ_C16_OctreeClosestPoint() {
 }
 
 // elements within a radius: exactly the brute-force set
-func ZZ_C16_OctreeWithinRange(){
+func ZZ_C16_OctreeWithinRange() {
 	els, ps := elements()
 	t := tree(els)
 	q := sv3("q")
